@@ -1,7 +1,7 @@
 """Shared driver for the checks that compare the compiled machine with the Lean reference
 semantics (C01, C07, C08, C09, C16): export the source independently, export the machine from the
 real compiler, and run the `refine` command of the model driver."""
-import os, sys
+import os, sys, signal
 from nmfu_api import compile_program
 from export import export_machine, Unsupported as MUnsupported
 import srcexport
@@ -17,9 +17,23 @@ def model():
     return _model
 
 
-def refine(src, args, timeout=60, strict_done=0, subst_last=0, limit=200000):
+def refine(src, args, timeout=60, strict_done=0, subst_last=0, limit=200000, compile_budget=10):
     """-> dict(status = closed | closed-relaxed | mismatch | rejected | unsupported | timeout | fuel | error, detail)"""
-    o = compile_program(src, args, codegen=False)
+    # nmfu's own regex minimisation is exponential on some inputs: bound the compile
+    class _Slow(BaseException):
+        pass
+
+    def _alarm(*_):
+        raise _Slow()
+    old = signal.signal(signal.SIGALRM, _alarm)
+    signal.alarm(compile_budget)
+    try:
+        o = compile_program(src, args, codegen=False)
+    except _Slow:
+        return {"status": "unsupported", "detail": f"compile time budget ({compile_budget}s) exceeded"}
+    finally:
+        signal.alarm(0)
+        signal.signal(signal.SIGALRM, old)
     if not o.ok:
         return {"status": "rejected", "detail": o.kind + ": " + o.msg.split("\n")[0][:160], "kind": o.kind}
     try:
